@@ -172,7 +172,9 @@ theorem lockPrelude_spec (h k : Nat) : ∀ (fuel : Nat) (a : Api) (limit : Limit
             (script.head?.getD defaultRound).acts
           split
           · exact ⟨hi2, fun _ => by rw [hf2]; exact hf1⟩
-          · exact ih _ _ _ _ hi2 (by rw [hf2]; exact hf1)
+          · split
+            · exact ⟨hi2, fun _ => by rw [hf2]; exact hf1⟩
+            · exact ih _ _ _ _ hi2 (by rw [hf2]; exact hf1)
       · exact ⟨hstep, by simp [Res.isAbort]⟩
 
 
